@@ -2,7 +2,7 @@
 contract) - never counted as proved.  A real project tree is built in a temporary directory (BASE_DIR with a `components`
 directory in COMPONENTS.dirs, and one installed app with a `components` app dir), populated with EVERY subset pattern of a fixed
 set of entries - nested packages, underscore- and dot-prefixed files and directories at every level, __init__.py, non-.py files,
-names containing dots - and get_component_files(".py") is compared with the property: exactly the public files, each once, each
+names containing dots - and get_component_files(".py") is compared with the property (a file named __init__.<other suffix> is private like every other underscore name): exactly the public files, each once, each
 with the dotted path Python would use to import it from the project root / the app package."""
 import itertools
 import os
@@ -11,7 +11,9 @@ import sys
 import tempfile
 import textwrap
 
-ENTRIES = ["a.py", "pkg/__init__.py", "pkg/b.py", "pkg/sub/c.py", "_priv/d.py", "pkg/_e.py", "pkg/_priv/f.py", ".hid/g.py", "pkg/.h.py", "x.y/z.py", "pkg/n.txt", "pkg/sub/__init__.py"]
+ENTRIES = ["a.py", "pkg/__init__.py", "pkg/b.py", "pkg/sub/c.py", "_priv/d.py", "pkg/_e.py", "pkg/_priv/f.py", ".hid/g.py", "pkg/.h.py", "x.y/z.py", "pkg/n.txt", "pkg/sub/__init__.py",
+           "pkg/s.js", "pkg/__init__.js", "pkg/_t.js"]
+SUFFIXES = [".py", ".js"]
 
 
 def public(rel):
@@ -24,7 +26,7 @@ def public(rel):
 
 
 def dotted(prefix, rel):
-    parts = rel[:-3].split("/")
+    parts = rel[: rel.rindex(".")].split("/")
     mod = ".".join([prefix] + parts)
     return mod[: -len(".__init__")] if mod.endswith(".__init__") else mod
 
@@ -56,13 +58,14 @@ def run_one(args):
                     p = os.path.join(where, rel)
                     os.makedirs(os.path.dirname(p), exist_ok=True)
                     open(p, "w").close()
-            n += 1
-            got = sorted((os.path.relpath(str(e.filepath), base), e.dot_path) for e in get_component_files(".py") if str(e.filepath).startswith(base + os.sep))   # (the library's own components app lies elsewhere)
-            want = sorted([(f"components/{rel}", dotted("components", rel)) for rel in subset if rel.endswith(".py") and public(rel)] +
-                          [(f"myapp/components/{rel}", dotted("myapp.components", rel)) for rel in subset if rel.endswith(".py") and public(rel)])
-            if got != want and len(fails) < 4:
-                fails.append({"input": {"entries in each components directory": list(subset)}, "clause": "exactly the public files, each once, with the import path Python would use",
-                              "expected": want, "observed": got})
+            for suffix in SUFFIXES:
+                n += 1
+                got = sorted((os.path.relpath(str(e.filepath), base), e.dot_path) for e in get_component_files(suffix) if str(e.filepath).startswith(base + os.sep))   # (the library's own components app lies elsewhere)
+                want = sorted([(f"components/{rel}", dotted("components", rel)) for rel in subset if rel.endswith(suffix) and public(rel)] +
+                              [(f"myapp/components/{rel}", dotted("myapp.components", rel)) for rel in subset if rel.endswith(suffix) and public(rel)])
+                if got != want and len(fails) < 4:
+                    fails.append({"input": {"entries in each components directory": list(subset), "suffix": suffix}, "clause": "exactly the public files, each once, with the import path Python would use",
+                                  "expected": want, "observed": got})
         return {"n": n, "fails": fails}
     finally:
         shutil.rmtree(root, ignore_errors=True)
@@ -71,11 +74,11 @@ def run_one(args):
 def run(repo, procs=16):
     import multiprocessing as mp
     subsets = [tuple(e for e, bit in zip(ENTRIES, bits) if bit) for bits in itertools.product((0, 1), repeat=len(ENTRIES))]
-    subsets = subsets[::7] + [tuple(ENTRIES)]          # every 7th subset pattern (586 of 4096) plus the full tree
+    subsets = subsets[::53] + [tuple(ENTRIES)]         # every 53rd subset pattern plus the full tree
     ctx = mp.get_context("spawn")
     with ctx.Pool(procs) as pool:
         res = pool.map(run_one, [(repo, subsets[k::procs]) for k in range(procs)])
-    return {"space": f"{len(subsets)} of the {2 ** len(ENTRIES)} subsets (every 7th, plus the full set) of {len(ENTRIES)} entries, placed both in a COMPONENTS.dirs directory and in an app's components directory of a real project tree",
+    return {"space": f"{len(subsets)} of the {2 ** len(ENTRIES)} subsets (every 53rd, plus the full set), for the suffixes .py and .js of {len(ENTRIES)} entries, placed both in a COMPONENTS.dirs directory and in an app's components directory of a real project tree",
             "evaluations": sum(r["n"] for r in res), "failures": [f for r in res for f in r["fails"]][:6], "exhaustive": False}
 
 
